@@ -34,6 +34,8 @@ DoOp(s, e) ==
     [] e.op = "Resync"    -> DoResync(s, e.ids)
     [] e.op = "SetMode"   -> DoSetMode(s, e.m, e.fault)
     [] e.op = "Quiesce"   -> [s EXCEPT !.quiet = TRUE, !.res = "ok"]
+    [] e.op = "FlushHold"    -> DoFlushHold(s, e.a, Range(e.ids))
+    [] e.op = "FlushRelease" -> DoFlushRelease(s, Range(e.ids))
     [] e.op = "RoOp"      -> [s EXCEPT !.res = "ro"]          \* request that exists only to be rejected in a read-only mode (see Cand)
     [] e.op = "ExpectClean" -> [s EXCEPT !.res = "ok"]       \* C44 bounded form: enabled only if nothing is left (see Cand)
 
@@ -44,8 +46,10 @@ Cand(s, e) ==
     [] e.ev = "Start" -> IF Idle(s) THEN StartOp(s, [op |-> e.op, a |-> e.a, c |-> e.c, ids |-> e.ids]) ELSE Stuck
     [] e.ev = "At"    -> IF CanAdv(s, e) THEN Adv(s, e) ELSE Stuck
     [] e.ev = "End"   -> RunAll(s)
-    [] e.ev = "Crash" -> DoCrash(s)
+    [] e.ev = "Crash" -> IF s.hold = 0 THEN DoCrash(s) ELSE Stuck
     [] e.ev = "Do"    -> IF Idle(s) /\ (e.op = "Epoch" => e.e > s.epoch) /\ (e.op = "ExpectClean" => Clean(s)) /\ (e.op = "RoOp" => RO(s.mode))
+                            /\ (e.op = "FlushHold" => CanHold(s, e.a)) /\ (e.op = "FlushRelease" => s.hold # 0)
+                            /\ (e.op \in {"Resync", "SetMode"} => s.hold = 0)
                          THEN DoOp(s, e) ELSE Stuck
 
 HasObs(e) == e.ev \in {"At", "End", "Crash", "Do"}
